@@ -83,6 +83,7 @@ type SolveOpts struct {
 	WorkDir string
 	Keep    bool
 	Retry   bool
+	Solo    bool            // only the first solver, no race (zero-annotation safety sweep)
 	NoRetry map[string]bool // obligations of open known findings: expected not to discharge
 }
 
@@ -168,6 +169,22 @@ func solveOne(o *Obligation, opt SolveOpts, idx int) {
 		default:
 			o.Status = "undecided"
 		}
+		return
+	}
+	if opt.Solo && !o.Cover {
+		r := runSolver(solvers[0], file, opt.Secs)
+		if finish(r) {
+			return
+		}
+		if r.status == "sat" {
+			o.Status = "refuted"
+			o.Solver = r.solver
+			o.Raw = r.out
+			o.Model = parseModel(r.out)
+			return
+		}
+		o.Status = "undecided"
+		o.Raw = r.status
 		return
 	}
 	// staged race: z3-new first; when it has not answered after a short head start the other two join.
